@@ -13,3 +13,4 @@ from . import specparser  # noqa: F401
 from . import diagram  # noqa: F401
 from . import pickling  # noqa: F401
 from . import declaration  # noqa: F401
+from . import dispatcher  # noqa: F401
